@@ -129,7 +129,11 @@ func (e *Env) eval(x Expr) (TV, error) {
 		return TV{ite(c, a.T, b.T), typ}, nil
 	case *EQuant:
 		v := quote("q:" + x.Var)
-		env := e.with(map[string]TV{x.Var: {Term{v, SInt}, tInt}})
+		qs, qt := quantSort(x)
+		if qs != SInt && x.Lo != nil {
+			return TV{}, fmt.Errorf("a %s quantifier cannot have a range", x.VType)
+		}
+		env := e.with(map[string]TV{x.Var: {Term{v, qs}, qt}})
 		env.bound = true
 		body, err := env.evalBool(x.Body)
 		if err != nil {
@@ -148,9 +152,9 @@ func (e *Env) eval(x Expr) (TV, error) {
 			rng = and(le(lo.T, Term{v, SInt}), lt(Term{v, SInt}, hi.T))
 		}
 		if x.Forall {
-			return TV{T(SBool, "(forall ((%s Int)) %s)", v, implies(rng, body).S), tBool}, nil
+			return TV{T(SBool, "(forall ((%s %s)) %s)", v, qs, implies(rng, body).S), tBool}, nil
 		}
-		return TV{T(SBool, "(exists ((%s Int)) %s)", v, and(rng, body).S), tBool}, nil
+		return TV{T(SBool, "(exists ((%s %s)) %s)", v, qs, and(rng, body).S), tBool}, nil
 	case *EField:
 		return e.field(x)
 	case *EIndex:
@@ -755,6 +759,30 @@ func (e *Env) call(x *ECall) (TV, error) {
 			ref = sBase(ref)
 		}
 		return TV{and(le(e.old.wm, ref), lt(ref, e.st.wm)), tBool}, nil
+	case "rangevisited":
+		// rangevisited(k): key k has already been delivered by the (single
+		// live) `for ... range m` loop over a map
+		if len(x.Args) != 1 {
+			return TV{}, fmt.Errorf("rangevisited takes one argument")
+		}
+		k, err := e.eval(x.Args[0])
+		if err != nil {
+			return TV{}, err
+		}
+		var found []Term
+		var names []string
+		for c, t := range e.cellState().cells {
+			if rk, ok := c.(rangeKey); ok {
+				if _, isMap := rk.r.X.Type().Underlying().(*types.Map); isMap {
+					found = append(found, t)
+					names = append(names, rk.Name())
+				}
+			}
+		}
+		if len(found) != 1 {
+			return TV{}, fmt.Errorf("rangevisited: %d live map range loops %v (need exactly one)", len(found), names)
+		}
+		return TV{sel(found[0], k.T), tBool}, nil
 	case "loopfresh":
 		// loopfresh(x): x was allocated since the loop was entered (loop clauses)
 		if len(x.Args) != 1 {
@@ -1111,6 +1139,9 @@ func exprString(x Expr) string {
 		}
 		if x.Lo != nil {
 			return fmt.Sprintf("%s %s in %s..%s :: %s", q, x.Var, exprString(x.Lo), exprString(x.Hi), exprString(x.Body))
+		}
+		if x.VType != "" {
+			return fmt.Sprintf("%s %s %s :: %s", q, x.Var, x.VType, exprString(x.Body))
 		}
 		return fmt.Sprintf("%s %s :: %s", q, x.Var, exprString(x.Body))
 	case *ECond:
